@@ -480,6 +480,7 @@ func body(c *kernel.Ctx) {
 		}
 	}
 
+	cancelCtx := verifrt.Intn("cfg", 3) == 2 // runs in which some callers' contexts are (being) cancelled
 	exec := func(cl int, p *planBatch) {
 		cr := &callRec{client: cl, internal: p.internal, duty: p.duty, filler: p.filler}
 		set := core.ParSignedDataSet{}
@@ -494,6 +495,21 @@ func body(c *kernel.Ctx) {
 		h.calls = append(h.calls, cr)
 		h.mu.Unlock()
 		cctx := context.WithValue(ctx, callKey{}, cr)
+		// the caller's context may be done already (a validator client that hung up, a receive timeout that
+		// fired) or be cancelled while the call runs: what the call stored still counts towards thresholds
+		switch m := verifrt.Intn("w", 8); {
+		case !cancelCtx:
+		case m == 7:
+			var cancel context.CancelFunc
+			cctx, cancel = context.WithCancel(cctx)
+			cancel()
+			verifrt.Fault("caller-context-already-cancelled")
+		case m == 6:
+			var cancel context.CancelFunc
+			cctx, cancel = context.WithCancel(cctx)
+			verifrt.Go(func() { verifrt.Yield(); cancel() })
+			verifrt.Fault("caller-context-cancelled-during-call")
+		}
 		cr.invT = verifrt.Now()
 		cr.dropped = h.hasExp && p.duty == h.expiring && cr.invT > h.expireAt
 		kind := "ext"
@@ -537,12 +553,33 @@ func body(c *kernel.Ctx) {
 		mk := func(sh int) *planBatch {
 			return &planBatch{duty: fillers[0].duty, share: sh, filler: true, internal: verifrt.Intn("w", 2) == 1, entries: []*datum{h.newDatum(h.evictKey, sh, 0)}}
 		}
-		exec(-1, fillers[0])
-		for _, sh := range others[:h.t-2] {
+		// the flooding share's own partial in that entry may be over another root than the other shares'
+		// (it is the one the cap evicts), and is stored before, between or after the other early shares
+		if verifrt.Intn("w", 2) == 1 {
+			fillers[0].entries[0] = h.newDatum(h.evictKey, floodShare, 1)
+			verifrt.Probe("exempt-eviction-of-a-minority-root-partial")
+		}
+		pos := verifrt.Intn("w", h.t-1)
+		for i, sh := range others[:h.t-2] {
+			if i == pos {
+				exec(-1, fillers[0])
+			}
 			exec(-1, mk(sh))
+		}
+		if pos >= h.t-2 {
+			exec(-1, fillers[0])
+		}
+		if verifrt.Intn("w", 2) == 1 {
+			// after the flood the flooding share hands in its evicted partial once more (a replay, or a
+			// validator client that re-submits): accepted as new or refused, it must not disturb the others
+			postEvict = append(postEvict, &planBatch{duty: fillers[0].duty, share: floodShare, filler: true, entries: []*datum{fillers[0].entries[0]}})
+			verifrt.Probe("exempt-evicted-partial-resubmitted")
 		}
 		for _, sh := range others[h.t-2 : h.t] {
 			postEvict = append(postEvict, mk(sh))
+		}
+		if verifrt.Intn("w", 2) == 1 && len(postEvict) == 3 {
+			postEvict[0], postEvict[1] = postEvict[1], postEvict[0]
 		}
 		verifrt.Probe("exempt-eviction-with-other-shares")
 	} else if flood {
